@@ -94,3 +94,29 @@ def equivalent(sites, func, atoms, required, ignore=(), feasible=None):
     except Unknown as u:
         return None, str(u)
     return True, None
+
+
+def mentions(sites, func, pattern):
+    """Does the path condition of some site contain the atom `pattern` (in either polarity)?"""
+    for site in sites:
+        for test, pol in pyq.guards(site, func):
+            for n in ast.walk(test):
+                if isinstance(n, ast.expr):
+                    p, _ = _positive(n)
+                    if pm.eq(p, pattern) is not None:
+                        return True
+    return False
+
+
+def decide(sites, func, atoms, required, must_depend_on=(), feasible=None, ignore=()):
+    """equivalent(), plus: when the condition contains unknown atoms but does not mention an atom the required function
+    depends on, the site is reached regardless of that atom - a violation.  -> (verdict, explanation)"""
+    if not sites:
+        return None, "no site found"
+    v, info = equivalent(sites, func, atoms, required, ignore=ignore, feasible=feasible)
+    if v is None:
+        for name in must_depend_on:
+            if not mentions(sites, func, atoms.patterns[name]):
+                return False, f"the condition no longer depends on `{atoms.patterns[name]}` (it contains `{info}` instead)"
+        return None, f"unknown condition `{info}`"
+    return v, (f"differs for {info}" if info else "")
